@@ -233,7 +233,12 @@ def post_grouped_mean(res, arr, spike_clusters):
     for j, c in enumerate(ids):
         sel = arr[sc == c].astype(np.float64)
         exp = sel.sum(axis=0) / len(sel)
-        if not np.allclose(r[j], exp, rtol=1e-9, atol=1e-12, equal_nan=True):
+        # values given in single / half precision: the mean is judged to a few units of that precision relative to the
+        # largest member (how the sum is accumulated is not part of the definition); double precision and integers: 1e-9
+        atol = 1e-12
+        if arr.dtype.kind == 'f' and arr.dtype.itemsize < 8 and sel.size and np.isfinite(sel).all():
+            atol = 8 * float(np.finfo(arr.dtype).eps) * float(np.abs(sel).max())
+        if not np.allclose(r[j], exp, rtol=1e-9, atol=atol, equal_nan=True):
             return 'mean of cluster %s is %s, expected %s' % (c, short(r[j]), short(exp))
     return None
 
